@@ -50,7 +50,8 @@ def _trait_call_self(t, callee, new_traits):
     if callee.get("impl_trait") in new_traits:
         isf = callee.get("impl_self") or {}
         # `impl<I, P, H> T<I, P, H> for Q<I, P, H>` called on Q<I, P, H>: same parameters under the same names
-        return (st, False) if isf.get("s") == st.get("s") else None
+        nolt = lambda x: re.sub(r"'[A-Za-z_][A-Za-z0-9_]*,?\s*", "", x or "").replace("<>", "")   # lifetimes are erased in MIR
+        return (st, False) if nolt(isf.get("s")) == nolt(st.get("s")) else None
     if callee.get("parent") in new_traits:
         return (st, True)
     return None
